@@ -121,11 +121,14 @@ Fixpoint process_frames (e : env) (st : fstate) (frs : list frame) : step_result
       end
   end.
 
-(* process_data: the loop, then the sig_accumulator_reset block (abort_write of an open accumulator) *)
+(* process_data: the loop, then the sig_accumulator_reset block (abort_write of an open accumulator).  A raised reset is acted on
+   (and acknowledged) only by a call whose read returned nothing -- the input queue is drained --, so that the source, which starts
+   writing to the output queue as soon as it is notified, never does so while this thread may still map it (fix d30) *)
+Definition is_nil {A} (l : list A) : bool := match l with [] => true | _ => false end.
 Definition process_data (e : env) (st : fstate) (packet : list frame) (reset : bool) : step_result :=
   match process_frames e st packet with
   | (st1, out1, true) =>
-      if reset then (st_init, out1, true) else (st1, out1, true)
+      if reset && is_nil packet then (st_init, out1, true) else (st1, out1, true)
   | r => r
   end.
 
